@@ -39,7 +39,7 @@ ASSUMPTIONS = [
     'it honours the same disabled state (_last_len is None) as the original',
 ]
 
-ENTRY = ['apply', 'funcop', 'ite', 'quantify', 'exist_forall',
+ENTRY = ['apply', 'funcop', 'ite', 'quantify', 'exist_forall', 'apply_quant',
          'let_const', 'let_compose', 'let_rename', 'cube', 'var',
          'add_expr', 'copy', 'ar_copy_bdd', '_copy_copy_bdd',
          'load_pickle', 'load_json', 'image', 'preimage', 'find_or_add']
@@ -49,7 +49,7 @@ def plan(tier, seed):
     specs = []
     for s in range(16 if tier == 'thorough' else 8):
         specs.append(dict(kind='schedule', seed=seed * 100 + s,
-                          examples=400 if tier == 'thorough' else 57))
+                          examples=400 if tier == 'thorough' else 60))
     on_bdd = [dict(kind='bdd', nmax=5, init_vars=4, reordering=True,
                    reorder_starts=s) for s in (2, 4, 8)]
     on_ar = [dict(kind='autoref', nmax=5, init_vars=4, reordering=True,
@@ -201,6 +201,17 @@ class Scenario:
                 return [(m.forall(names(a1), o[0]),
                          tt.forall(t[0], n, js))]
             return [(m.exist(names(a1), o[0]), tt.exists(t[0], n, js))]
+        if e == 'apply_quant':
+            js = [j for j in range(n) if (a1 >> j) & 1]
+            alias = ['\\A', 'forall', '\\E', 'exists'][a2 % 4]
+            fa = a2 % 4 < 2
+            with _reordering_off(m):
+                c = m.cube({x: True for x in names(a1)})
+                if not ar:
+                    b.incref(c)
+                self.extra_held = [c]
+            want = tt.forall(t[0], n, js) if fa else tt.exists(t[0], n, js)
+            return [(m.apply(alias, c, o[0]), want)]
         if e == 'let_const':
             d = {nm[j]: bool((a2 >> j) & 1) for j in range(n)
                  if (a1 >> j) & 1} or {nm[0]: True}
@@ -374,8 +385,8 @@ def run_once(case, cwd, k):
         else:
             for u in sc.ops:
                 led[abs(u)] = led.get(abs(u), 0) + 1
-        if case['entry'] == 'find_or_add':
-            led = None      # harness holds lo/hi as well
+        if case['entry'] in ('find_or_add', 'apply_quant'):
+            led = None      # harness holds lo/hi (the cube) as well
         inv.check_manager(b, led, sc.nm, semantic=(sc.n <= 5))
         changed = dict(b.vars) != order_before
         return trig.count, trig.fired, changed
@@ -413,6 +424,7 @@ def run_schedule(spec, out):
     from hypothesis import given, settings, strategies as st, HealthCheck
     cwd = os.getcwd()
     known_bad = set(spec.get('exclude', EXCLUDED))
+    only = spec.get('only')
 
     @st.composite
     def cases(draw, entry):
@@ -440,7 +452,8 @@ def run_schedule(spec, out):
                     garbage=draw(st.lists(st.integers(0, F), max_size=2)),
                     a1=draw(st.integers(0, 63)), a2=draw(st.integers(0, 63)))
 
-    entries = [e for e in ENTRY if e not in known_bad]
+    entries = [e for e in ENTRY if e not in known_bad
+               and (only is None or e in only)]
     per_entry = max(1, spec['examples'] // len(entries))
     for ei, entry in enumerate(entries):
         @hypothesis.seed(spec['seed'] * 100 + ei)
